@@ -509,7 +509,7 @@ pub fn run(ctx: &RunCtx) -> i32 {
             }
             if !req.body.is_empty() && g.chance(1, 2) {
                 let n = req.body.len();
-                req.framing = Some(Framing { cuts: vec![g.usize_below(n + 1)], pendings: vec![g.below(3) as u8, g.below(3) as u8], pending_at_end: g.below(2) as u8, immediate_wake: g.chance(1, 2), error_at: None, stall_at: None });
+                req.framing = Some(Framing { cuts: vec![g.usize_below(n + 1)], pendings: vec![g.below(3) as u8, g.below(3) as u8], pending_at_end: g.below(2) as u8, immediate_wake: g.chance(1, 2), error_at: None, stall_at: None, error_kind: None });
             }
             kinds.push(format!("{class}/{}", if marked { "route" } else { "s3" }));
             reqs.push(req);
